@@ -135,14 +135,16 @@ class Check:
             ok = False
             self.proof_failures.append("lake build failed: " + log[-3000:])
         # grep for escape hatches in everything the theorems depend on (project-local)
-        for p in lean_closure(modules + [self.drv_root]):
+        exe_roots = dict(re.findall(r'name = "(drv_\w+)"\s*\nroot = "([\w.]+)"', (LEAN / "lakefile.toml").read_text()))
+        drv_roots = [self.drv_root] + [exe_roots[t] for t in (build_extra or []) if t in exe_roots]
+        for p in lean_closure(modules + drv_roots):
             src = strip_lean_comments(p.read_text())
             for ln, line in enumerate(src.splitlines(), 1):
                 if FORBIDDEN.search(line):
                     ok = False
                     self.proof_failures.append(f"forbidden token in {p.relative_to(ROOT)}:{ln}: {line.strip()}")
         # Mathlib must not leak into Model/Driver/Gen
-        for p in lean_closure([self.drv_root]):
+        for p in lean_closure(drv_roots):
             if re.search(r"^\s*import\s+(Mathlib|Aesop|Batteries)", p.read_text(), re.M):
                 ok = False
                 self.proof_failures.append(f"model file imports Mathlib: {p}")
